@@ -22,10 +22,10 @@ ASSERT_ARGUMENTS = {
         "every other declarator comes from _parse_declarator/_parse_id_declarator (never None) or is a TypeDecl placeholder",
     ("CParser._parse_abstract_declarator_opt", "$(self._parse_pointer()) is not None"):
         "_parse_pointer returns None only when it accepted no '*'; it is called here under look-ahead TIMES (checked automatically: entry fact of _parse_pointer)",
-    ("CParser._parse_direct_abstract_declarator", "$(c_ast.FuncDecl(args=$, type=c_ast.TypeDecl(declname=None, quals=None, align=None, type=None), coord=self._tok_coord(tok=$)) | self._parse_abstract_array_base() | self._parse_abstract_declarator_opt()) is not None"):
+    ("CParser._parse_direct_abstract_declarator", "$(c_ast.FuncDecl(args=$, type=c_ast.TypeDecl(declname=None, quals=None, align=None, type=None), coord=self._tok_coord(tok=$)) | self._parse_abstract_declarator_opt()) is not None"):
         "_parse_abstract_declarator_opt returns None only when the next token is none of * ( [; the branch is entered with a token that is not ')' "
         "either, so the following _expect('RPAREN') has already raised ParseError before the assert is reached",
-    ("CLexer._match_token", "$($.lastgroup | $[1] | 'TYPEID' | _keyword_map.get($, 'ID')) is not None"):
+    ("CLexer._match_token", "$(_regex_master.match($, $)).lastgroup is not None"):
         "every alternative of the master regex is a named group (checked automatically when the tokeniser model is built)",
     ("CLexer._match_token", "$($[4] | _regex_actions[$][1] | f'Invalid char constant {$}') is not None"):
         "every ERROR rule carries a message except BAD_CHAR_CONST, for which the line above builds one (rule table checked by R-C10.2)",
@@ -53,7 +53,7 @@ def _prev_stmt_is(call_text):
 
 # recorded assert arguments that rest on a structural fact: the fact is re-checked on every run
 ASSERT_PRECONDITIONS = {
-    ("CParser._parse_direct_abstract_declarator", "$(c_ast.FuncDecl(args=$, type=c_ast.TypeDecl(declname=None, quals=None, align=None, type=None), coord=self._tok_coord(tok=$)) | self._parse_abstract_array_base() | self._parse_abstract_declarator_opt()) is not None"):
+    ("CParser._parse_direct_abstract_declarator", "$(c_ast.FuncDecl(args=$, type=c_ast.TypeDecl(declname=None, quals=None, align=None, type=None), coord=self._tok_coord(tok=$)) | self._parse_abstract_declarator_opt()) is not None"):
         (_prev_stmt_is("self._expect('RPAREN')"), "the statement just before the assert is self._expect('RPAREN')"),
 }
 # constant-index subscripts / other partial operations, keyed by (function, alpha-normalised expression)
@@ -61,7 +61,7 @@ PARTIAL_ARGUMENTS = {
     ("CParser._build_declarations", "@2[0]"): "callers pass a literal one-element list or the non-empty result of a declarator-list production",
     ("CParser._build_declarations", "@1['type'][-1]"): "guarded by len(spec['type']) < 2 in the same or-chain / reached only after that guard raised otherwise",
     ("CParser._build_function_definition", "self._build_declarations(spec=@1, decls=[dict(decl=@2, init=None, bitsize=None)], typedef_namespace=True)[0]"): "one declaration is built per element of the one-element decls list",
-    ("CParser._parse_parameter_declaration", "self._build_declarations(spec=$(self._parse_declaration_specifiers(allow_no_type=True)[0]), decls=[dict(decl=$(self._parse_abstract_declarator_opt() | self._parse_any_declarator(allow_abstract=True, typeid_paren_as_abstract=True)[0]), init=None, bitsize=None)])[0]"): "one declaration per element of the one-element decls list",
+    ("CParser._parse_parameter_declaration", "self._build_declarations(spec=$(self._parse_declaration_specifiers(allow_no_type=True)[0]), decls=[dict(decl=$(self._parse_any_declarator(allow_abstract=True, typeid_paren_as_abstract=True)[0]), init=None, bitsize=None)])[0]"): "one declaration per element of the one-element decls list",
     ("CParser._build_parameter_declaration", "self._build_declarations(spec=@1, decls=[dict(decl=@2, init=None, bitsize=None)])[0]"): "one declaration per element of the one-element decls list",
     ("CParser._build_parameter_declaration", "@1['type'][-1]"): "guarded by len(spec['type']) > 1 earlier in the same and-chain",
     ("CParser._fix_decl_name_type", "@2[0]"): "else-branch of `if not typename`",
@@ -77,7 +77,7 @@ PARTIAL_ARGUMENTS = {
     ("CLexer.token", "self._lexdata[self._pos]"): "inside `while self._pos < n`",
     ("CLexer._match_token", "self._lexdata[self._pos]"): "called from token() only while _pos < len(text)",
     ("CLexer._match_token", "$(($, $, $, $, $) | ($, $.tok_type, $.literal, _RegexAction.TOKEN, None) | None)[0]"): "right operand of `best is None or ...`",
-    ("CLexer._match_token", "_regex_actions[$($.lastgroup | $[1] | 'TYPEID' | _keyword_map.get($, 'ID'))]"): "tok_type is the name of a master-regex group and the table is built from the same rule list (checked when the model is built)",
+    ("CLexer._match_token", "_regex_actions[$(_regex_master.match($, $)).lastgroup]"): "tok_type is the name of a master-regex group and the table is built from the same rule list (checked when the model is built)",
 }
 PARTIAL_ARGUMENTS.update({
     ("CParser._add_typedef_name", "self._scope_stack[-1]"): "the scope stack is never empty: parse() starts it with one scope, _push_scope appends, _pop_scope refuses to pop the last one",
@@ -127,6 +127,8 @@ class Canon:
         self.param_index = {a.arg: i for i, a in enumerate(fn.args.args)}
         self.params = {a.arg for a in fn.args.args + fn.args.kwonlyargs} | ({fn.args.vararg.arg} if fn.args.vararg else set()) | ({fn.args.kwarg.arg} if fn.args.kwarg else set())
         self.defs = {}
+        self.def_nodes = {}
+        self._at = None
         for n in ast.walk(fn):
             if isinstance(n, ast.Assign):
                 for t in n.targets:
@@ -143,8 +145,10 @@ class Canon:
                         self._bind(it.optional_vars, it.context_expr, "with ")
             elif isinstance(n, ast.MatchAs) and n.name:
                 self.defs.setdefault(n.name, []).append(("case", None))
+                self.def_nodes.setdefault(n.name, []).append(n)
             elif isinstance(n, ast.ExceptHandler) and n.name:
                 self.defs.setdefault(n.name, []).append(("except", None))
+                self.def_nodes.setdefault(n.name, []).append(n)
         self._memo = {}
         cls = getattr(fn, "_parent", None)
         self.cls_methods = {m.name: m for m in cls.body if isinstance(m, ast.FunctionDef)} if isinstance(cls, ast.ClassDef) else {}
@@ -153,6 +157,7 @@ class Canon:
         if isinstance(t, ast.Name):
             if t.id not in self.params:
                 self.defs.setdefault(t.id, []).append((tag, value))
+                self.def_nodes.setdefault(t.id, []).append(t)
         elif isinstance(t, (ast.Tuple, ast.List)):
             for i, e in enumerate(t.elts):
                 self._bind(e, value, f"{tag}item{i} of ")
@@ -162,26 +167,58 @@ class Canon:
             return name
         if name in stack or depth > 0:
             return "$"          # one level of provenance: deeper locals are anonymous
-        key = (name, depth)
-        if key not in self._memo and all(tag == "" and v is not None and _is_path(v) for tag, v in self.defs[name]):
+        # only the bindings that can reach the use: those written before it, and those inside a loop that also contains the use (a later
+        # re-binding of the variable - `tok_type = ...` further down - is no part of what the variable holds here)
+        live = self._reaching(name)
+        key = (name, depth, live)
+        defs_ = [d for i, d in enumerate(self.defs[name]) if i in live]
+        if key not in self._memo and all(tag == "" and v is not None and _is_path(v) for tag, v in defs_):
             # a local that merely names ONE path expression (x = spec["type"], possibly bound in several branches) is transparent:
             # hoisting or inlining it changes no key
-            texts = {self.text(v, depth, stack + (name,)) for _tag, v in self.defs[name]}
+            texts = {self._sub(v, depth, stack + (name,)) for _tag, v in defs_}
             if len(texts) == 1:
                 self._memo[key] = texts.pop()
         if key not in self._memo:
             parts = set()
-            for tag, v in self.defs[name]:
+            for tag, v in defs_:
                 mt = _ITEM_TAG.fullmatch(tag)
                 if mt and v is not None:
                     # `a, b = f()` binds a to f()[0]: rendered like the subscript, so unpacking a tuple and indexing it read the same
-                    parts.add(self.text(v, depth + 1, stack + (name,)) + f"[{mt.group(1)}]")
+                    parts.add(self._sub(v, depth + 1, stack + (name,)) + f"[{mt.group(1)}]")
                     continue
-                parts.add(tag + (self.text(v, depth + 1, stack + (name,)) if v is not None else ""))
+                parts.add(tag + (self._sub(v, depth + 1, stack + (name,)) if v is not None else ""))
             self._memo[key] = "$(" + " | ".join(sorted(parts)) + ")"
         return self._memo[key]
 
-    def text(self, node, depth=0, stack=()):
+    def _reaching(self, name):
+        nodes = self.def_nodes.get(name, [])
+        at = self._at
+        if at is None or len(nodes) != len(self.defs.get(name, [])):
+            return frozenset(range(len(self.defs.get(name, []))))
+        loops = []
+        cur = at
+        while cur is not None and cur is not self.fn:
+            cur = getattr(cur, "_parent", None)
+            if isinstance(cur, (ast.For, ast.While, ast.ListComp, ast.GeneratorExp, ast.SetComp, ast.DictComp)):
+                loops.append(cur)
+        pos = (getattr(at, "lineno", 0), getattr(at, "col_offset", 0))
+        out = set()
+        for i, dn in enumerate(nodes):
+            dpos = (getattr(dn, "lineno", 0), getattr(dn, "col_offset", 0))
+            if dpos <= pos or any(dn in list(ast.walk(lp)) for lp in loops) or not hasattr(dn, "lineno"):
+                out.add(i)
+        return frozenset(out) or frozenset(range(len(nodes)))
+
+    def _sub(self, node, depth, stack):
+        saved_at = self._at
+        try:
+            return self.text(node, depth, stack, _keep_at=True)
+        finally:
+            self._at = saved_at
+
+    def text(self, node, depth=0, stack=(), _keep_at=False):
+        if not _keep_at:
+            self._at = node
         saved = []
         calls = []
         try:
